@@ -3,6 +3,7 @@
 package lab
 
 import (
+	"github.com/saucelabs/forwarder/header"
 	"context"
 	"crypto/ecdsa"
 	"crypto/elliptic"
@@ -156,6 +157,7 @@ type ProxyOpts struct {
 	ConnectTo      []string
 	AllowTimeFrame []ruleset.TimeFrameEntry
 	ReqMods        []forwarder.RequestModifier
+	ConnectHeaders []string // --connect-header rules, wired as command/run does (request modifier for CONNECT + GetProxyConnectHeader)
 	ResMods        []forwarder.ResponseModifier
 	ConnectFunc    forwarder.ConnectFunc
 	RootCAs        *x509.CertPool // trusted by the proxy's transport
@@ -226,6 +228,23 @@ func StartProxy(o ProxyOpts) (*ProxyInst, error) {
 	cfg.BasicAuth = o.BasicAuth
 	cfg.AllowTimeFrame = o.AllowTimeFrame
 	cfg.RequestModifiers = o.ReqMods
+	var connectHeaders []header.Header
+	for _, r := range o.ConnectHeaders {
+		h, err := header.ParseHeader(r)
+		if err != nil {
+			return nil, fmt.Errorf("connect header %q: %w", r, err)
+		}
+		connectHeaders = append(connectHeaders, h)
+	}
+	if len(connectHeaders) > 0 {
+		hs := header.Headers(connectHeaders)
+		cfg.RequestModifiers = append(cfg.RequestModifiers, forwarder.RequestModifierFunc(func(req *http.Request) error {
+			if req.Method == http.MethodConnect {
+				return hs.ModifyRequest(req)
+			}
+			return nil
+		}))
+	}
 	cfg.ResponseModifiers = o.ResMods
 	cfg.ConnectFunc = o.ConnectFunc
 	cfg.TestingHTTPHandler = o.Handler
@@ -344,6 +363,15 @@ func StartProxy(o ProxyOpts) (*ProxyInst, error) {
 	}
 	if o.RootCAs != nil {
 		tr.TLSClientConfig.RootCAs = o.RootCAs
+	}
+	if len(connectHeaders) > 0 {
+		tr.GetProxyConnectHeader = func(ctx context.Context, proxyURL *url.URL, target string) (http.Header, error) {
+			h := make(http.Header, len(connectHeaders))
+			for _, ch := range connectHeaders {
+				ch.Apply(h)
+			}
+			return h, nil
+		}
 	}
 	dl := &DialLog{}
 	inner := tr.DialContext
